@@ -40,6 +40,9 @@ type breakerSubject struct {
 
 func newBreakerSubject(cfg M, next http.Handler) *breakerSubject {
 	s := &breakerSubject{tick: time.Duration(numOr(cfg, "tick_ms", 100)) * time.Millisecond, checked: "none"}
+	if us := numOr(cfg, "tick_us", 0); us > 0 { // sub-millisecond ticks: arrivals that are not on a millisecond boundary
+		s.tick = time.Duration(us) * time.Microsecond
+	}
 	fb := http.HandlerFunc(func(w http.ResponseWriter, _ *http.Request) {
 		s.fbCount.Add(1)
 		w.WriteHeader(http.StatusServiceUnavailable)
